@@ -125,8 +125,10 @@ LEN_I = ["inch", "ft", "yard", "mile", "foot"]
 FAMILIES = [LEN_M, W_M, MEM, LEN_I]
 OPWORDS_EN = {"times": "*", "multiply": "*", "divide": "/", "add": "+", "sum": "+", "append": "+", "exclude": "-", "minus": "-"}
 OPWORDS_TR = {"kere": "*", "carpi": "*", "ekle": "+", "topla": "+", "eksi": "-", "cikar": "-"}
-VARNAMES = ["x", "y", "price", "total", "rate", "tax", "my var", "net total", "alpha", "result", "q"]
-VARNAMES_TR = ["x", "fiyat", "toplam tutar", "oran", "sonuc"]
+VARNAMES = ["x", "y", "price", "total", "rate", "tax", "my var", "net total", "alpha", "result", "q",
+            # names with letters outside ASCII: their case is folded by the Unicode rules, not the ASCII ones
+            "ürün", "ödeme", "τιμή", "цена", "gümüş ücret"]
+VARNAMES_TR = ["x", "fiyat", "toplam tutar", "oran", "sonuc", "ürün", "ödeme", "gümüş ücret"]
 
 
 def num(rng, small=False):
@@ -416,7 +418,10 @@ FEATURES = [(f_arith, 12), (f_percent, 12), (f_money, 14), (f_duration, 8), (f_d
 
 COMMENT_TEXTS = ["note", "march 2020", "jan", "5 + 3", "* 2", "10 usd to try", "to hex", "# again", "#", "", " ", "x = 9",
                  "50%", "est", "12:30 pm", "today", "2 hours", "price", "(", ")", "= 1", "ağustos", "$5", "- 1", "/ 0",
-                 "of what", "[NUMBER:3]", "{NUMBER:n}", "1k", "0x10", "GMT+3", "kere 2", "mart"]
+                 "of what", "[NUMBER:3]", "{NUMBER:n}", "1k", "0x10", "GMT+3", "kere 2", "mart",
+                 # comments whose text has multi-byte characters (the comment span is a BYTE span) and that end in
+                 # something evaluable: a number, an operator with operand, a percentage, a conversion
+                 "ödeme 3", "😀 x2", "ücret + 7", "½ * 2", "şubat ığüçö 10%", "τιμή 5", "€€€€ to try", "日本語 - 4", "ığüşöç 1k"]
 
 
 # ---------------------------------------------------------------- rewritings
